@@ -836,6 +836,12 @@ def build_exidx_elf(case):
         xidx.append(len(secs))
         secs.append({'name': '.ARM.exidx' if g == 0 else '.ARM.exidx.text.second', 'sh_type': SHT_EXIDX, 'sh_flags': 0x82,
                      'sh_link': 1, 'data': b'\0' * (8 * len(idxs)), 'sh_addralign': 4, 'file_align': 4})
+    nobi = None
+    if case.get('nobits_before_tab'):
+        # a no-bits section (.tbss) whose header precedes the tables' and names the same file offset: it occupies no file space, its
+        # nominal extent [sh_offset, sh_offset + sh_size) overlaps the first table entries and says nothing about them
+        nobi = len(secs)
+        secs.append({'name': '.tbss', 'sh_type': 8, 'sh_flags': 0x403, 'data': b'', 'size_override': case['nobits_before_tab'], 'sh_addralign': 4, 'file_align': 4})
     tabi = len(secs)
     secs.append({'name': '.ARM.extab', 'sh_type': 1, 'sh_flags': 2, 'data': extab, 'sh_addralign': 4, 'file_align': 4})
     tab2i = None
@@ -849,6 +855,8 @@ def build_exidx_elf(case):
         body = [tabi] + xidx
     if tab2i is not None:
         body = ([tab2i] + body) if case.get('tab2_first') else (body + [tab2i])
+    if nobi is not None:
+        body.insert(body.index(tabi), nobi)
     order = ['ph', 1] + body + [stri, 'sh']
     if case.get('order') == 1:
         order = ['ph'] + body + [1, stri, 'sh']
@@ -1214,6 +1222,8 @@ def gen_exidx_case(ch, tier):
             'acc': ch.choice(['seq', 'rev', 'twice', 'evenodd', 'zigzag']), 'entries': ents}
     if n >= 2 and ch.int(0, 4) == 0:
         case['split'] = ch.int(0, n)
+    if ch.bool(0.25):
+        case['nobits_before_tab'] = ch.choice([4, 8, 12, 0x20])
     if ch.bool(0.3):
         case.update(tab_split=ch.int(0, 60), tab2_name=ch.choice(['.ARM.extab.text.startup', '.rodata', '.gcc_except_table', '.ARM.extab.text.unlikely']), tab2_first=ch.bool())
     return case
@@ -1349,6 +1359,7 @@ def sweep(tier):
                 es.append({'kind': k, 'disp': -4, 'nw': nw, 'code': bytes((0x01 + i) & 0x3f for i in range(2 + 4 * nw)),
                            'trail': [0, 0x12345678]})
         cases.append(_exidx_case(es, le, split=7))
+        cases.append(_exidx_case(es, le, nobits_before_tab=8))
         for k2, nm in enumerate(('.ARM.extab.text.startup', '.rodata')):
             cases.append(_exidx_case(es, le, tab_split=3 + 5 * k2, tab2_name=nm, tab2_first=bool(k2), split=5 if k2 else None))
         # counts beyond the usual range: the count field is a full byte
